@@ -329,7 +329,8 @@ def eager_contraction_tensor(red_op, bin_op, reduced_vars, *terms):
     if not all(term.dtype == "real" for term in terms):
         raise NotImplementedError("TODO")
     backend = BACKEND_TO_EINSUM_BACKEND[get_backend()]
-    return _eager_contract_tensors(reduced_vars, terms, backend=backend)
+    result = _eager_contract_tensors(reduced_vars, terms, backend=backend)
+    return _reduce_absent_vars(red_op, result, reduced_vars, terms)
 
 
 @eager.register(Contraction, ops.LogaddexpOp, ops.AddOp, frozenset, Tensor, Tensor)
@@ -337,7 +338,14 @@ def eager_contraction_tensor(red_op, bin_op, reduced_vars, *terms):
     if not all(term.dtype == "real" for term in terms):
         raise NotImplementedError("TODO")
     backend = BACKEND_TO_LOGSUMEXP_BACKEND[get_backend()]
-    return _eager_contract_tensors(reduced_vars, terms, backend=backend)
+    result = _eager_contract_tensors(reduced_vars, terms, backend=backend)
+    return _reduce_absent_vars(red_op, result, reduced_vars, terms)
+
+
+def _reduce_absent_vars(red_op, result, reduced_vars, terms):
+    # einsum silently ignores reduced variables that no operand mentions
+    absent = reduced_vars - frozenset().union(*(term.input_vars for term in terms))
+    return result.reduce(red_op, absent) if absent else result
 
 
 # TODO Consider using this for more than binary contractions.
